@@ -1128,7 +1128,10 @@ func (p *pipe) Do(ctx context.Context, cmd Completed) (resp RedisResult) {
 		resp = NewErrorResult(p.Error())
 	}
 
-	if left := p.decrWaitsAndIncrRecvs(); state == 0 && left != 0 {
+	// state == 2 && waits == 1: Close() swapped the state between incrWaits() and the load above. Close() then saw
+	// waits != 1, took this call for a sync reader and left starting the background worker to it, so it must be
+	// started here as well, or the PING that Close() queues is never served (Close() stalls, its helper leaks).
+	if left := p.decrWaitsAndIncrRecvs(); left != 0 && (state == 0 || (state == 2 && waits == 1)) {
 		p.background()
 	}
 	return resp
@@ -1238,7 +1241,10 @@ func (p *pipe) DoMulti(ctx context.Context, multi ...Completed) *redisresults {
 			resp.s[i] = err
 		}
 	}
-	if left := p.decrWaitsAndIncrRecvs(); state == 0 && left != 0 {
+	// state == 2 && waits == 1: Close() swapped the state between incrWaits() and the load above. Close() then saw
+	// waits != 1, took this call for a sync reader and left starting the background worker to it, so it must be
+	// started here as well, or the PING that Close() queues is never served (Close() stalls, its helper leaks).
+	if left := p.decrWaitsAndIncrRecvs(); left != 0 && (state == 0 || (state == 2 && waits == 1)) {
 		p.background()
 	}
 	return resp
